@@ -24,7 +24,7 @@ static int ref_frame(byte* o, int opcode, bool fin, bool masked, const byte key[
 // frames from a server, 0 = server receiving masked frames), p3 = fragmentation into frames (1..3), p4 = ping in between
 extern "C" void h_receive(void)
 {
-	int n = vp_param(0), nsym = vp_param(1), client = vp_param(2), nfr = vp_param(3), ping = vp_param(4);
+	int n = vp_param(0), nsym = vp_param(1), client = vp_param(2), nfr = vp_param(3), ping = vp_param(4), eof = vp_param(5);   // eof: the peer closes TCP right after its last frame
 	static byte pay[70000]; static byte wire[70200]; int wl = 0;
 	for (int i = 0; i < n; i++) pay[i] = (byte)(i * 7 + 1);
 	for (int i = 0; i < nsym && i < n; i++) { pay[i < nsym / 2 ? i : n - 1 - (i - nsym / 2)] = nondet_u8(); }
@@ -44,6 +44,7 @@ extern "C" void h_receive(void)
 	if (frames > 1) wl += ref_frame(wire + wl, 2, true, !client, key, second, 3, 0);
 	int fd = vp_sock_new();
 	vp_sock_feed(fd, wire, wl);
+	if (eof) vp_sock_peer_close(fd);
 	{
 		WebSocket ws(Socket(fd), client != 0);
 		WebSocketMsg msg = ws.receive();
